@@ -19,7 +19,7 @@ Legs (all direct calls; `e2e_leg` below is the place for the end-to-end leg):
                                   `Azure-HMAC-SHA256 <guid> <hex MAC>`, MAC over what is sent
 
 Known finding F3 (known_findings.d/C04.json): inputs in the classes `kv_collision` /
-`repeated_header_name` fail the coverage predicate; they are reported as KNOWN-FINDING only when
+`repeated_header_name` / `header_value_not_utf8` fail the coverage predicate; they are reported as KNOWN-FINDING only when
 the class predicate holds AND the observed MAC is exactly the one the faithful model predicts.
 """
 import hashlib
@@ -67,10 +67,30 @@ def spec_query_pairs(query):
     return out
 
 
+WHITE_SPACE = "".join(chr(c) for c in [9, 10, 11, 12, 13, 32, 0x85, 0xA0, 0x1680] + list(range(0x2000, 0x200B)) +
+                      [0x2028, 0x2029, 0x202F, 0x205F, 0x3000])
+
+
+def utf8_ok(v):
+    try:
+        v.decode("utf-8")
+        return True
+    except UnicodeDecodeError:
+        return False
+
+
+def spec_value(v):
+    """a header value as received, up to surrounding blanks: Unicode White_Space when the value is
+    text (valid UTF-8), SP / HTAB otherwise"""
+    if utf8_ok(v):
+        return v.decode("utf-8").strip(WHITE_SPACE).encode("utf-8")
+    return v.strip(b" \t")
+
+
 def spec_string_to_sign(auth_name, method, body, headers, path, query):
     """StringToSign = Method \\n Body \\n CanonicalizedHeaders Path \\n CanonicalizedParameters over
     EVERY header (except the authorization header itself) and EVERY query parameter."""
-    hs = [(n.lower(), v.strip(b" \t")) for n, v in headers if n.lower() != auth_name]
+    hs = [(n.lower(), spec_value(v)) for n, v in headers if n.lower() != auth_name]
     hs.sort(key=lambda h: h[0])
     ch = b"".join(n + b":" + v + b"\n" for n, v in hs)
     ps = [(k.lower(), v) for k, v in spec_query_pairs(query)]
@@ -104,6 +124,16 @@ def kv_collision(pairs):
 def repeated_header_name(auth_name, headers):
     names = [n.lower() for n, _ in headers if n.lower() != auth_name]
     return len(set(names)) < len(names)
+
+
+def header_value_not_utf8(auth_name, headers):
+    return any(not utf8_ok(v) for n, v in headers if n.lower() != auth_name)
+
+
+def classes_of(auth_name, pairs, headers):
+    return [c for c, b in (("kv_collision", kv_collision(pairs)),
+                           ("repeated_header_name", repeated_header_name(auth_name, headers)),
+                           ("header_value_not_utf8", header_value_not_utf8(auth_name, headers))) if b]
 
 
 def split_target(t):
@@ -140,6 +170,31 @@ HNAMES = [b"x-ms-version", b"Metadata", b"metadata", b"Content-Type", b"content-
 HVALS = [b"2012-11-30", b"true", b"True ", b"application/json", b"text/xml; charset=utf-8", b"", b" ", b"\t",
          b"a:b", b"x: y", b"1", b"2", b"{ \"isRoot\": \"true\"}", b"Thu, 01 Oct 2026 21:02:29 GMT", b"v"]
 BLANKS = [b"", b"", b" ", b"  ", b"\t", b" \t ", b"\t\t"]
+
+
+UNI_BLANKS = ["\u00a0", "\u0085", "\u1680", "\u2000", "\u2003", "\u200a", "\u2028", "\u2029", "\u202f", "\u205f", "\u3000"]
+UNI_TEXT = ["\u00e9", "\u00fc", "\u4e2d\u6587", "\U0001f600", "\ufffd", "\u00df", "\u03a9", "\u200b", "\u180e", "\ufeff", "\u00a0", "\u2003"]
+INVALID = [b"\x80", b"\xbf", b"\xc0\x80", b"\xc1\xbf", b"\xc2", b"\xe2\x82", b"\xe2\x80", b"\xe0\x80\x80", b"\xed\xa0\x80",
+           b"\xf0\x9f\x98", b"\xf0\x9f", b"\xf0\x80\x80\x80", b"\xf4\x90\x80\x80", b"\xf5\x80\x80\x80", b"\xff", b"\xfe",
+           b"\xe2\x28\xa1", b"\xc2\xc2\xa0", b"\xf0\x9f\xe2\x80\x83", b"\xa0", b"\x85", b"\xe3\x80"]
+
+
+def gen_text_value(rng):
+    """valid UTF-8 with non-ASCII characters; ASCII or Unicode blanks around and inside"""
+    def blanks():
+        return "".join(rng.choice([" ", "\t"] + UNI_BLANKS) for _ in range(rng.choice([0, 0, 1, 1, 2])))
+    core = "".join(rng.choice(UNI_TEXT + ["a", "b:", "1", " ", "x y"]) for _ in range(rng.randint(0, 4)))
+    return (blanks() + core + blanks()).encode("utf-8")
+
+
+def gen_invalid_value(rng):
+    """a value that is not valid UTF-8: an invalid piece at the start, in the middle or at the end"""
+    a = rng.choice([b"", b" ", b"a", gen_text_value(rng)])
+    b = rng.choice([b"", b" ", b"\t", b"z", gen_text_value(rng)])
+    v = a + rng.choice(INVALID) + b
+    if rng.random() < 0.2:
+        v += rng.choice(INVALID)
+    return v if not utf8_ok(v) else v + b"\xff"
 
 
 def rbytes(rng, alphabet, lo, hi):
@@ -231,7 +286,9 @@ def gen_target(rng, allow_class=True):
     return t
 
 
-def gen_headers(rng, auth_name, allow_class=True, lo=0, hi=6):
+def gen_headers(rng, auth_name, allow_class=True, lo=0, hi=6, text=0.12, invalid=0.06):
+    """text / invalid: per-header probability of a non-ASCII valid UTF-8 value / of a value that is not
+    valid UTF-8 (the latter only when allow_class)"""
     hs = []
     for _ in range(rng.randint(lo, hi)):
         r = rng.random()
@@ -243,6 +300,11 @@ def gen_headers(rng, auth_name, allow_class=True, lo=0, hi=6):
             n = rbytes(rng, TOKEN, 1, 8)
         v = rng.choice(HVALS) if rng.random() < 0.7 else rbytes(rng, bytes(range(33, 127)), 0, 12)
         v = rng.choice(BLANKS) + v + rng.choice(BLANKS)
+        r = rng.random()
+        if r < text:
+            v = gen_text_value(rng)
+        elif allow_class and r < text + invalid:
+            v = gen_invalid_value(rng)
         hs.append((n, v))
     if allow_class and hs and rng.random() < 0.3:
         n, v = rng.choice(hs)
@@ -325,6 +387,32 @@ def coq_cases(ctx, name, calls, per_expr=20, shard=5):
     return [r for chunk in res for r in chunk]
 
 
+def parse_raw_request(raw):
+    """one HTTP/1.1 request as the mock host received it -> (method, target, [(name, value)], body);
+    None when incomplete or chunked"""
+    he = raw.find(b"\r\n\r\n")
+    if he < 0:
+        return None
+    lines = raw[:he].split(b"\r\n")
+    parts = lines[0].split(b" ")
+    if len(parts) != 3:
+        return None
+    headers = []
+    for l in lines[1:]:
+        n, sep, v = l.partition(b":")
+        if not sep:
+            return None
+        headers.append((n, v.strip(b" \t")))
+    if any(n.lower() == b"transfer-encoding" for n, _ in headers):
+        return None
+    cl = [v for n, v in headers if n.lower() == b"content-length"]
+    n = int(cl[0]) if cl and cl[0].isdigit() else 0
+    body = raw[he + 4:he + 4 + n]
+    if len(body) != n:
+        return None
+    return parts[0], parts[1], headers, body
+
+
 # ------------------------------------------------------------------------------------------
 # end-to-end leg (not run in this round; see notes/C04.md)
 # ------------------------------------------------------------------------------------------
@@ -346,28 +434,36 @@ def e2e_leg(ctx, auth_name, requests, key):
         scs.append(e2e.scenario("c04-%d" % i, [e2e.conn([raw], audit=e2e.audit(e2e.WIRESERVER, uid=0))], key=key))
     results = e2e.run_scenarios(ctx, scs)
     kb = strict_unhex(key["key"].encode())
+    guid = key["guid"].encode()
     calls, seen = [], []
-    failures = []
     for (m, t, hs, body), r in zip(requests, results):
-        for c in e2e.upstream_messages(r, e2e.WIRESERVER):
-            for msg in c:
-                headers = [(n.encode("latin1"), (v or "").encode("latin1")) for n, v in msg["headers"]]
-                path, query = split_target(msg["target"].encode("latin1"))
-                auth = [v for n, v in headers if n.lower() == auth_name]
-                spec = spec_string_to_sign(auth_name, msg["method"].encode(), msg["body"], headers, path, query)
-                want = SCHEME + b" " + key["guid"].encode() + b" " + hmac_hex(kb, spec)
-                if auth != [want]:
-                    failures.append({"case": {"leg": "e2e", "method": m, "target": t, "headers": hs, "body_len": len(body)},
-                                     "why": "request received by the host does not carry exactly one valid authorization header",
-                                     "impl": {"authorization": auth, "pairs": spec_query_pairs(query), "headers": headers}})
-                calls.append("c04_sig_case %s %s %s %s %s" % (cb(msg["method"].encode()), cb(msg["body"]), cb(path), cob(query), cpairs(headers)))
-                seen.append((auth, headers, path, query))
-    disagreements = []
-    for (auth, headers, path, query), res in zip(seen, coq_cases(ctx, "e2e", calls)):
-        want = SCHEME + b" " + key["guid"].encode() + b" " + hmac_hex(kb, tb(res[0]))
-        if auth != [want]:
-            disagreements.append({"case": {"leg": "e2e", "path": path, "query": query, "headers": headers},
-                                  "model": want, "impl": auth})
+        for c in r.get("upstream", {}).get(e2e.WIRESERVER, []):
+            msg = parse_raw_request(c.get("bytes") or b"")      # own parser: header values stripped of SP / HTAB only
+            if msg is None:
+                continue
+            method, target, headers, rbody = msg
+            path, query = split_target(target)
+            calls.append("c04_sig_case %s %s %s %s %s" % (cb(method), cb(rbody), cb(path), cob(query), cpairs(headers)))
+            seen.append((method, target, path, query, headers, rbody, [v for n, v in hs if n.lower() == auth_name]))
+    disagreements, failures = [], []
+    for (method, target, path, query, headers, body, client_auth), res in zip(seen, coq_cases(ctx, "e2e", calls, per_expr=10)):
+        case = {"leg": "e2e", "method": method, "target": target, "headers_received": headers, "body_len": len(body)}
+        auth = [v for n, v in headers if n.lower() == auth_name]
+        if (method, target.lower()) in DOCUMENTED_EXEMPT:
+            # Canon.relay: an exempt request goes out exactly as it came (a client-supplied header included)
+            if auth != client_auth:
+                disagreements.append({"case": case, "model": ["exempt request forwarded untouched", client_auth], "impl": auth})
+            continue
+        model_auth = SCHEME + b" " + guid + b" " + hmac_hex(kb, tb(res[0]))
+        if auth != [model_auth]:
+            disagreements.append({"case": case, "model": model_auth, "impl": auth})
+        spec = spec_string_to_sign(auth_name, method, body, headers, path, query)
+        if auth != [SCHEME + b" " + guid + b" " + hmac_hex(kb, spec)]:
+            pairs = spec_query_pairs(query)
+            cls = classes_of(auth_name, pairs, headers)
+            failures.append({"case": dict(case, pairs=pairs),
+                             "why": "the request received by the host does not carry exactly one authorization header whose MAC covers every header and every parameter received",
+                             "impl": {"authorization": auth, "classes": cls, "explained_by_model": auth == [model_auth]}})
     return disagreements, failures, len(seen)
 
 
@@ -417,14 +513,14 @@ def run(ctx):
     H = [[(b"x", b"1"), (b"x", b"2")], [(b"x", b"2"), (b"x", b"1")], [(b"X", b"1"), (b"b", b" \tv "), (b"x", b"2")], []]
     while len(H) < nH:
         H.append(gen_headers(rng, AUTH))
-    H_high = []                                   # C13's stream: a value byte >= 0x80 (F7); not counted against C04
-    for _ in range(30 if ctx.quick else 300):
+    for _ in range(60 if ctx.quick else 600):     # a random byte >= 0x80 anywhere in a value (panicked before /repo 0528025, F7)
         hs = gen_headers(rng, AUTH, lo=1)
         i = rng.randrange(len(hs))
         v = bytearray(hs[i][1] + b"v")
         v[rng.randrange(len(v))] = rng.randrange(0x80, 0x100)
         hs[i] = (hs[i][0], bytes(v))
-        H_high.append(hs)
+        H.append(hs)
+    H += [[(b"x", b"\x80")], [(b"x", b"\x81")], [(b"x", b" \xc3\xa9\xc2\xa0\t")], [(b"x", b"a\xe2\x82 ")], [(b"x", b"\xe2\x80\x83v\xe3\x80\x80")]]
     H_bad = []
     for _ in range(30 if ctx.quick else 300):
         hs = gen_headers(rng, AUTH, lo=1)
@@ -465,7 +561,7 @@ def run(ctx):
             n = rng.choice(own_names) if rng.random() < 0.8 else rbytes(rng, TOKEN, 1, 6)
             if any(n.lower() == k.lower() for k in hs) or n.lower() == AUTH:
                 continue
-            hs[n] = rng.choice(BLANKS) + rng.choice(HVALS) + rng.choice(BLANKS)
+            hs[n] = gen_text_value(rng) if rng.random() < 0.15 else rng.choice(BLANKS) + rng.choice(HVALS) + rng.choice(BLANKS)
         r = rng.random()
         key, guid = (None, None) if r < 0.1 else ((gen_bad_key(rng), b"g-1") if r < 0.16 else (gen_key_hex(rng), rbytes(rng, b"0123456789abcdef-", 1, 36)))
         body = None if rng.random() < 0.3 else gen_body(rng)
@@ -476,7 +572,7 @@ def run(ctx):
     lines = []
     for m, t in U + U_bad + U_abs:
         lines.append("U %s %s" % (hx(m), hx(t)))
-    for hs in H + H_high + H_bad:
+    for hs in H + H_bad:
         lines.append("H " + pairs_fields(hs))
     for m, t, hs, body, key in S:
         lines.append("S %s %s %s %s %s" % (hx(m), hx(t), hx(body), hx(key), pairs_fields(hs)))
@@ -493,7 +589,7 @@ def run(ctx):
         pos += n
         return r
     oU, oUbad, oUabs = take(len(U)), take(len(U_bad)), take(len(U_abs))
-    oH, oHhigh, oHbad = take(len(H)), take(len(H_high)), take(len(H_bad))
+    oH, oHbad = take(len(H)), take(len(H_bad))
     oS, oB = take(len(S)), take(len(B))
     ctx.log("implementation ran on %d script lines" % len(lines))
 
@@ -562,7 +658,7 @@ def run(ctx):
             continue
         it = [(unhx(n), unhx(v)) for n, v in o["iter"]]
         if o.get("panic"):
-            fail(case, "panic in headers_to_canonicalized_string on ASCII header values", o)
+            fail(case, "panic in headers_to_canonicalized_string", o)
             continue
         calls.append("c04_headers_case %s" % cpairs(it))
         live.append((case, o, it))
@@ -572,12 +668,13 @@ def run(ctx):
             disagree(case, tb(res[0]), unhx(o["canon"]))
         if res[1] != repeated_header_name(AUTH, it):
             disagree(dict(case, what="class predicate repeated_header_name: Coq vs Python"), res[1], repeated_header_name(AUTH, it))
+        if res[2] != header_value_not_utf8(AUTH, it):
+            disagree(dict(case, what="class predicate header_value_not_utf8: Coq vs Python"), res[2], header_value_not_utf8(AUTH, it))
         count("H_repeated_name" if res[1] else "H_no_repeat")
+        count("H_value_not_utf8" if res[2] else ("H_value_non_ascii_text" if any(max(v, default=0) >= 0x80 for _, v in it) else "H_values_ascii"))
         if sample_H is None and len(it) >= 3 and not res[1]:
             sample_H = {"leg": "H", "headers": [[n.decode("latin1"), v.decode("latin1")] for n, v in it],
                         "impl": unhx(o["canon"]).decode("latin1"), "model": tb(res[0]).decode("latin1")}
-    for hs, o in zip(H_high, oHhigh):
-        count("C13_stream_value_byte_ge_0x80_" + ("panic" if o.get("panic") else "reject" if "reject" in o else "no_panic"))
     for hs, o in zip(H_bad, oHbad):
         count("H_bad_rejected" if "reject" in o else "H_bad_accepted")
 
@@ -591,7 +688,7 @@ def run(ctx):
             count("S_rejected_by_hyper_" + o["reject"])
             continue
         if o.get("panic"):
-            fail(case, "panic while signing a request with ASCII header values", o)
+            fail(case, "panic while signing a request", o)
             continue
         path, query = split_target(t)
         it = [(unhx(n), unhx(v)) for n, v in o["iter"]]
@@ -601,7 +698,7 @@ def run(ctx):
             calls.append("c04_sig_case %s %s %s %s %s" % (cb(m), cb(body), cb(path), cob(query), cpairs(it)))
         live.append((case, o, m, path, query, it, body, key))
     count("S_cases", len(live))
-    n_known = {"kv_collision": 0, "repeated_header_name": 0}
+    n_known = {"kv_collision": 0, "repeated_header_name": 0, "header_value_not_utf8": 0}
     sample_S = None
     for (case, o, m, path, query, it, body, key), res in zip(live, coq_cases(ctx, "sig", calls, per_expr=10)):
         sig_input = unhx(o["sig_input"])
@@ -636,7 +733,7 @@ def run(ctx):
         # the property: the MAC covers every header and every parameter of the request as received
         spec = spec_string_to_sign(AUTH, m, body, it, path, query)
         pairs = spec_query_pairs(query)
-        cls = [c for c, b in (("kv_collision", kv_collision(pairs)), ("repeated_header_name", repeated_header_name(AUTH, it))) if b]
+        cls = classes_of(AUTH, pairs, it)
         count("S_in_known_class" if cls else "S_outside_known_class")
         if sig != hmac_hex(kb, spec):
             fail(dict(case, pairs=pairs, iter=it), "the MAC is not HMAC-SHA256(key, StringToSign of every header and every parameter of the request)",
@@ -712,6 +809,19 @@ def run(ctx):
         else:
             count("B_unsigned")
 
+    # ---------------- optional end-to-end leg (off by default in this round) ----------------
+    if os.environ.get("VERIF_C04_E2E") == "1":
+        reqs = []
+        for _ in range(40 if ctx.quick else 400):
+            cls = rng.random() < 0.3
+            hs = [(n, v.strip(b" \t")) for n, v in gen_headers(rng, AUTH, cls) if n.lower() not in (b"host", b"content-length", b"transfer-encoding", b"connection", b"expect", b"upgrade")]
+            reqs.append((rng.choice([b"GET", b"POST", b"PUT", b"DELETE"]), gen_target(rng, cls).split(b"#")[0], hs, gen_body(rng)))
+        d2, f2, n2 = e2e_leg(ctx, AUTH, reqs, {"guid": "abcdef01-2345-6789-abcd-ef0123456789", "key": "00ff" * 16})
+        disagreements += d2
+        failures += f2
+        count("E2E_requests_seen_by_mock_host", n2)
+        ctx.log("e2e leg: %d requests seen upstream" % n2)
+
     # report the simplest failing input: outside the known classes first, then the shortest script line
     def fkey(f):
         obs = f.get("impl")
@@ -735,15 +845,14 @@ def run(ctx):
     distinct = len({(m, t) for m, t in U}) + len({tuple(h) for h in H if h}) + len({(m, t, tuple(h), b, k) for m, t, h, b, k in S}) + len(live)
     dist["known_finding_failures"] = dict(n_known)
     ctx.coverage.update({
-        "evaluations": total + len(H_high),
+        "evaluations": total,
         "distinct_nontrivial": distinct,
         "traces_validated_against_impl": compared - len(disagreements),
         "rule": "U: (method, origin-form target) with queries built from duplicate keys, valueless keys (`k`, `k=`), prefix keys, mixed case, "
                 "percent-escapes, `&&`, `=` in values, empty keys, collision patterns, the exemption URLs in several spellings (incl. every pair "
                 "currently in should_skip_sig's source); H: header lists in any order/case with blank/tab padding, repeated names, the authorization "
-                "header; S: whole requests with bodies 0..100 KiB over all byte values and a hex/non-hex key; B: build_request for the four real "
-                "own-call shapes and random ones. Non-trivial = distinct input by content. Inputs hyper rejects are counted, not compared; header "
-                "values with a byte >= 0x80 are a separate stream (C13/F7), not counted against C04.",
+                "header, values that are non-ASCII UTF-8 text (Unicode blanks at the edges) or not valid UTF-8 (truncated / overlong / surrogate / stray bytes); S: whole requests with bodies 0..100 KiB over all byte values and a hex/non-hex key; B: build_request for the four real "
+                "own-call shapes and random ones. Non-trivial = distinct input by content. Inputs hyper rejects are counted, not compared.",
         "exhaustive": False,
         "samples": [x for x in [sample_S, sample_U, sample_H, sample_B] if x],
         "input_distribution": dist,
@@ -754,7 +863,7 @@ def run(ctx):
         "hyper/http behaviour (HeaderMap insert/append/iter, Uri accessors, Builder *_ref) is modelled, exercised through the real code on every case",
         "the forward step of handle_request_with_signature (insert the header into the request built from the same head) is covered by theorems over "
         "the model and by the S leg's direct calls to as_sig_input/compute_signature; the raw bytes at a mock host are the end-to-end leg's subject (e2e_leg, not run in this round)",
-        "header values and URI text are ASCII where canonicalised (HeaderValue::to_str / http::Uri guarantee it); values with bytes >= 0x80 panic (F7, C13)",
+        "URI text is ASCII (http::Uri guarantees it); header values are decoded by String::from_utf8_lossy and trimmed by str::trim (Unicode White_Space), both modelled (Canon.utf8_lossy, Canon.trim_u)",
     ]
     verdict(ctx, proofs_ok, detail, disagreements, failures, known_filter,
             corr_name="Canon.{query_pairs,canon_query,canon_headers,as_sig_input,request_to_sign_input,build_request,should_skip_sig} vs hyper_client.rs / helpers.rs")
